@@ -31,11 +31,12 @@ Qed.
 
 Theorem declared_exact_full o p decl : ord_ok o -> in_domain p = true ->
   kf_c07_field_result p = false -> kf_c07_odd_name p = false -> kf_c07_inline_mod p = false ->
+  kf_c07_payload_expr p = false ->
   C07Reach.declared o p = Some decl ->
   NoDup decl /\ (forall x, In x decl <-> SpecReach p x) /\ Permutation decl (reachable_spec p).
 Proof.
-  intros Ho Hdom K5 K6 K7 Hd.
-  pose proof (agree_from_classes p Hdom K5 K6 K7) as Ha.
+  intros Ho Hdom K5 K6 K7 K8 Hd.
+  pose proof (agree_from_classes p Hdom K5 K6 K7 K8) as Ha.
   destruct (declared_exact o Ho p Ha decl Hd) as [Hnd Hin]. split; auto. split; auto.
   destruct (spec_total p (command_roots p ++ event_roots p) Hdom) as (l & El).
   assert (reachable_spec p = l). { unfold reachable_spec, reach_from. unfold reach_from_opt in El. rewrite El. reflexivity. }
